@@ -48,6 +48,7 @@ func checkC09(r *Run) {
 	r3 := r.Rule("R-C09-3", "stop conditions: every loop wait has returning `disconnected` and ctx.Done() cases; close(done) deferred; Disconnect: close(disconnected) -> RetryClient.Disconnect -> select{done, ctx.Done()}")
 	r4 := r.Rule("R-C09-4", "graceful end (Err() == nil after Done()) returns instead of redialling")
 	r5 := r.Rule("R-C09-5", "exactly one CONNECT per dialled connection, carrying the caller's client id and options")
+	r6 := r.Rule("R-C09-6", "a keep-alive failure makes the loop come round: KeepAlive classifies a timeout as a non-nil error and the keep-alive goroutine closes the watched connection")
 	m, why := c.reconnModel()
 	if m == nil {
 		r1.Lost("reconnect-loop", "%s", why)
@@ -368,6 +369,32 @@ func checkC09(r *Run) {
 		r4.Lost(key+"/connected-wait", "connected-phase select not found")
 	}
 	c.ruleErrBeforeDone(r4)
+	// ---- R-C09-6
+	c.ruleKeepAliveReaction(r6, m, "R-C09-6")
+	if ka := c.Func("KeepAlive"); ka != nil && len(ka.Params) == 4 {
+		var wt, ping *ssa.Call
+		eachInstr(ka, func(in ssa.Instruction) {
+			if k, ok := in.(*ssa.Call); ok {
+				if isStdCall(&k.Call, "context", "WithTimeout") {
+					wt = k
+				}
+				if k.Call.IsInvoke() && k.Call.Method.Name() == "Ping" {
+					ping = k
+				}
+			}
+		})
+		if wt != nil && ping != nil {
+			var ctxTo ssa.Value
+			for _, u := range *wt.Referrers() {
+				if ex, ok := u.(*ssa.Extract); ok && ex.Index == 0 {
+					ctxTo = ex
+				}
+			}
+			if fe := nonNilEdges(ka, ping); len(fe) == 1 && ctxTo != nil {
+				c.ruleKeepAliveClassify(r6, ka, ka.Params[0], ctxTo, wt, ping, fe[0])
+			}
+		}
+	}
 	// ---- R-C09-5
 	outer := m.Outer
 	okID := len(m.Connect.Call.Args) >= 4 && len(outer.Params) >= 4 &&
@@ -463,7 +490,20 @@ func checkC08(r *Run) {
 	r2 := r.Rule("R-C08-2", "`initialized` starts false, is only set to true, and only after the resubscribe decision of the iteration")
 	r3 := r.Rule("R-C08-3", "the established list: applied before each subscribe/unsubscribe request is issued; re-subscribed from a snapshot through the queued subscribe path; written nowhere else")
 	r4 := r.Rule("R-C08-4", "call order survives retransmission: subscribe/unsubscribe requests queue behind pending retries, Retry() processes ascending and re-queues [continuation, unattempted tail] in this order, Resubscribe precedes Retry")
+	r5 := r.Rule("R-C08-5", "no subscribe/unsubscribe request is lost: failures after registration carry a retry handle (also for a closed connection), the handle is queued, Retry keeps what it does not complete")
 	r3.Floor(4)
+	{
+		var subSites []*reqSite
+		for _, s := range c.sitesOrLost(r5) {
+			if s.Kind == "subscribe" || s.Kind == "unsubscribe" {
+				subSites = append(subSites, s)
+			}
+		}
+		c.ruleRetryableFailures(r5, subSites)
+		c.ruleWrapKeepsHandle(r5)
+		c.ruleFailedKeptFor(r5, "subscribe", "unsubscribe")
+		c.ruleRetryRequeue(r5, nil, "loss")
+	}
 	c.ruleRetryRequeue(r4, nil, "order")
 	c.ruleTaskQueueing(nil, r4, "subscribe", "unsubscribe")
 	m, why := c.reconnModel()
